@@ -25,7 +25,11 @@ pub fn cells_json(cs: &[C]) -> Value { Value::Array(cs.iter().map(|c| c.json()).
 pub fn decode_raw(raw: u64, dmax: u8) -> C {
   let f = raw & 1 == 1;
   let dd = ((raw >> 1).trailing_zeros() >> 1) as u8;
-  let depth = dmax.saturating_sub(dd);
+  // the sentinel bit sits below the position of the coarsest depth (or is absent): not the encoding of any cell of a BMOC of this
+  // maximal depth - e.g. entries written for a deeper maximal depth than the one the BMOC announces. Reported as a cell of the
+  // non-existent base cell 255, which no specification accepts (it must not be decoded as a plausible depth-0 cell)
+  if dd > dmax { return C { b: 255, p: Vec::new(), f }; }
+  let depth = dmax - dd;
   let h = raw >> (2 + 2 * dd as u32);
   let (b, p) = path_of_hash(depth, h);
   C { b: b.min(255) as u8, p, f }
@@ -313,6 +317,31 @@ pub fn ev_fixed(regs: &mut Regs, out: &mut Out, o: usize, depth: u8, flag: bool,
   out.emit(ev);
   regs.set(o, bm);
 }
+/// The same builder instance used several times: `to_bmoc(&mut self)` hands the accumulated BMOC over and leaves an empty builder
+/// behind, which the API lets the caller fill again. Each use is one `fixed` event of its own (the result must cover exactly the
+/// cells pushed during THAT use: nothing may survive from, or be suppressed because of, the previous one).
+pub fn ev_fixed_reuse(regs: &mut Regs, out: &mut Out, o: usize, depth: u8, flag: bool, cap: usize, uses: &[Vec<u64>]) {
+  let res: Vec<Option<Option<BMOC>>> = {
+    let mut acc: Vec<Option<Option<BMOC>>> = Vec::new();
+    let mut b = guarded(|| BMOCBuilderFixedDepth::with_capacity(depth, flag, cap));
+    for hs in uses {
+      let r = match b.as_mut() { None => None, Some(bb) => guarded(std::panic::AssertUnwindSafe(|| { for h in hs { bb.push(*h); } bb.to_bmoc() })) };
+      if r.is_none() { b = None; } // after a panic the builder is in an unknown state: the following uses are reported as panics too
+      acc.push(r);
+    }
+    acc
+  };
+  for (k, (hs, r)) in uses.iter().zip(res.into_iter()).enumerate() {
+    let mut set: Vec<u64> = hs.to_vec();
+    set.sort(); set.dedup();
+    let pushed: Vec<Value> = set.iter().map(|h| { let (b, p) = path_of_hash(depth, *h); json!({"b": b, "p": p}) }).collect();
+    let (p, none, bm) = match r { None => (1, 0, None), Some(None) => (0, 1, None), Some(Some(bm)) => (0, 0, Some(bm)) };
+    let mut ev = result_event(json!({"ev": "fixed", "out": o, "depth": depth, "flag": flag as u8, "cap": cap, "npush": hs.len(), "pushed": pushed, "none": none, "use": k + 1}), &bm);
+    ev.as_object_mut().unwrap().insert("p".into(), json!(p));
+    out.emit(ev);
+    regs.set(o, bm);
+  }
+}
 /// results above this size are not traced (TLC validates ~100 cells / ms; the bound keeps every event cheap)
 pub const MAX_QUERY_CELLS: usize = 250;
 pub fn ev_query(regs: &mut Regs, out: &mut Out, o: usize, what: &str, res: Option<BMOC>) {
@@ -351,7 +380,68 @@ fn coincidence_pair(rng: &mut Rng, dmax: u8, flags: bool) -> (Vec<C>, Vec<C>) {
   out_b.sort_by(|x, y| (x.b, &x.p).cmp(&(y.b, &y.p)));
   if rng.bool() { (a, out_b) } else { (out_b, a) }
 }
+/// "zoomed copy": B holds the cells of A with the same NUMBERS read `dz` levels deeper, in a BMOC whose maximal depth is `dz`
+/// levels deeper too: the two vectors of raw entries are then bit for bit the same although the two BMOCs cover different
+/// parts of the sky (anything comparing or copying raw values without looking at the maximal depth confuses them).
+fn zoom_pair(rng: &mut Rng, flags: bool, packed_prob: f64) -> (u8, Vec<C>, u8, Vec<C>) {
+  let dmax = match rng.below(3) { 0 => rng.below(3) as u8, 1 => 1 + rng.below(6) as u8, _ => rng.below(27) as u8 };
+  let cfg = GenCfg { dmax, flags, packed: rng.f64() < packed_prob };
+  let a = if rng.below(4) == 0 { let d = rng.below(dmax as u64 + 1) as u8; let (b, p) = path_of_hash(d, rng.below(3)); vec![C { b: b as u8, p, f: !flags || rng.bool() }] } else { gen_cells(rng, &cfg) };
+  let dz = 1 + rng.below((29 - dmax).min(3) as u64) as u8;
+  let b: Vec<C> = a.iter().map(|c| { let (bb, p) = path_of_hash(c.depth() + dz, c.hash()); C { b: bb as u8, p, f: c.f } }).collect();
+  (dmax, a, dmax + dz, b)
+}
+/// "long pair": A has 130 .. 300 entries, small cells first and coarser cells later in z-order; B has a few deep cells, most of
+/// them inside the coarse cells of A (any of the four sub-cells): whatever skips ahead in a long operand (binary search,
+/// galloping) must not jump over a coarse cell that contains the other operand's current cell.
+fn long_pair(rng: &mut Rng, flags: bool) -> (u8, Vec<C>, Vec<C>) {
+  let dmax = 4 + rng.below(8) as u8;
+  let flag = |rng: &mut Rng| !flags || rng.bool();
+  let mut a: Vec<C> = Vec::new();
+  let mut b: Vec<C> = Vec::new();
+  let nsmall = 130 + rng.below(170);
+  // small cells: every other cell of depth dmax from the start of base cell 0 (never four siblings together)
+  let mut h = 0u64;
+  while (a.len() as u64) < nsmall { let (bb, p) = path_of_hash(dmax, h); a.push(C { b: bb as u8, p, f: flag(rng) }); h += 1 + rng.below(2) + (h & 1); }
+  // then coarse cells of mixed depths further along the curve, and cells of B inside them
+  let mut first_free = (h >> (2 * (dmax - 1) as u32)) + 1;   // number, at depth 1, of the first depth-1 cell not touched yet
+  for _ in 0..(3 + rng.below(6)) {
+    let d = 1 + rng.below((dmax - 1).min(4) as u64) as u8;
+    let n = ((first_free << (2 * (d - 1) as u32)) + rng.below(3)).min((12u64 << (2 * d as u32)) - 1);
+    let (bb, p) = path_of_hash(d, n);
+    if a.iter().any(|c| c.b == bb as u8 && { let k = c.p.len().min(p.len()); c.p[..k] == p[..k] }) { continue; }
+    a.push(C { b: bb as u8, p: p.clone(), f: flag(rng) });
+    first_free = (n >> (2 * (d - 1) as u32)) + 1 + rng.below(2);
+    if rng.below(4) != 0 {
+      let mut q = p.clone();
+      q.push(rng.below(4) as u8);
+      while (q.len() as u8) < dmax && rng.below(3) != 0 { q.push(rng.below(4) as u8); }
+      b.push(C { b: bb as u8, p: q, f: flag(rng) });
+    }
+  }
+  // B also meets the run of small cells
+  for _ in 0..(1 + rng.below(3)) { let (bb, p) = path_of_hash(dmax, rng.below(h + 4)); b.push(C { b: bb as u8, p, f: flag(rng) }); }
+  for v in [&mut a, &mut b].iter_mut() { v.sort_by(|x, y| (x.b, &x.p).cmp(&(y.b, &y.p))); v.dedup_by(|x, y| x.b == y.b && x.p == y.p); }
+  (dmax, a, b)
+}
 fn fill_regs(rng: &mut Rng, regs: &mut Regs, out: &mut Out, n: usize, flags: bool, packed_prob: f64) {
+  if n >= 2 && rng.below(9) == 0 {
+    let (da, a, db, b) = zoom_pair(rng, flags, packed_prob);
+    ev_new(regs, out, 0, da, &a);
+    ev_new(regs, out, 1, db, &b);
+    for k in 2..n { let cfg = GenCfg { dmax: gen_dmax(rng), flags, packed: rng.f64() < packed_prob }; let cs = gen_cells(rng, &cfg); ev_new(regs, out, k, cfg.dmax, &cs); }
+    for op in ["xor", "or", "and"].iter() { ev_op(regs, out, op, 0, 1, 4); ev_op(regs, out, op, 1, 0, 5); }
+    return;
+  }
+  if n >= 2 && rng.below(12) == 0 {
+    let (dmax, a, b) = long_pair(rng, flags);
+    let d2 = if rng.below(3) == 0 { (dmax + 1 + rng.below(3) as u8).min(29) } else { dmax };
+    ev_new(regs, out, 0, dmax, &a);
+    ev_new(regs, out, 1, d2, &b);
+    for k in 2..n { let cfg = GenCfg { dmax: gen_dmax(rng), flags, packed: rng.f64() < packed_prob }; let cs = gen_cells(rng, &cfg); ev_new(regs, out, k, cfg.dmax, &cs); }
+    for op in ["and", "or", "xor"].iter() { ev_op(regs, out, op, 0, 1, 4); ev_op(regs, out, op, 1, 0, 5); }
+    return;
+  }
   if n >= 2 && rng.below(6) == 0 {
     let dmax = gen_dmax(rng).max(1);
     let (a, b) = coincidence_pair(rng, dmax, flags);
@@ -508,6 +598,26 @@ pub fn record_c15(rng: &mut Rng, count: u64, out: &mut Out) {
     for k in 0..3usize {
       let (depth, flag, cap, hs) = gen_pushes(rng);
       ev_fixed(&mut regs, out, k, depth, flag, cap, &hs);
+    }
+    if rng.below(2) == 0 {
+      // a builder used two or three times; a use often starts with, ends with or consists of the last / first value of the
+      // previous one, and may be empty
+      let (depth, flag, cap, hs) = gen_pushes(rng);
+      let nh = 12u64 << (2 * depth as u32);
+      let mut uses: Vec<Vec<u64>> = vec![hs];
+      for _ in 0..(1 + rng.below(2)) {
+        let prev = uses.last().unwrap().clone();
+        let mut nx: Vec<u64> = Vec::new();
+        match rng.below(5) {
+          0 => { if let Some(l) = prev.last() { nx.push(*l); } }
+          1 => { if let Some(l) = prev.last() { nx.push(*l); } for _ in 0..rng.below(6) { nx.push(rng.below(nh)); } }
+          2 => { if let Some(f) = prev.first() { nx.push(*f); } if let Some(l) = prev.last() { nx.push(*l); } }
+          3 => {}
+          _ => { for _ in 0..(1 + rng.below(8)) { nx.push(rng.below(nh)); } }
+        }
+        uses.push(nx);
+      }
+      ev_fixed_reuse(&mut regs, out, 2, depth, flag, cap, &uses);
     }
     for k in 3..6usize {
       let cfg = GenCfg { dmax: gen_dmax(rng), flags: true, packed: false };
